@@ -96,3 +96,16 @@ def registered_constraint_values(driver, x, name, j, both_sides):
         v2 = driver._confunc(x, name, True, j)
         return v1, v2
     return v1, 0.0
+
+
+# ---- C26 ------------------------------------------------------------------------------------
+def compute_then_partials(comp, inputs_cs, inputs, outputs, partials):
+    """real `compute` on dual-number inputs (re + eps*d), real `compute_partials` on the real parts"""
+    comp.compute(inputs_cs, outputs)
+    comp.compute_partials(inputs, partials)
+
+
+def apply_then_linearize(comp, inputs_cs, inputs, outputs, residuals, jacobian):
+    """real `apply_nonlinear` on dual-number inputs, real `linearize` on the real parts"""
+    comp.apply_nonlinear(inputs_cs, outputs, residuals)
+    comp.linearize(inputs, outputs, jacobian)
